@@ -152,6 +152,14 @@ fn judge(c: &Case11, encs: &[Enc], out: &Outputs) -> Result<&'static str, String
                 }
             }
         }
+        // pairwise distinct reports: the query must also run to completion on every shard
+        for h in 0..3 {
+            for s in 0..c.shards {
+                if !matches!(out[h][s], Out::Ok(_)) {
+                    return Err(format!("pairwise distinct reports, but helper {h} shard {s} did not complete the query ({:?})", out[h][s]));
+                }
+            }
+        }
         return Ok("distinct-not-rejected");
     }
     for h in 0..3 {
